@@ -87,6 +87,15 @@ impl Run {
         }
         let seed = std::env::var("VERIF_SEED").ok().and_then(|s| s.parse::<i64>().ok()).unwrap_or(0) as u64;
         let findings = load_findings();
+        if mode == Mode::Explore && !args.iter().any(|a| a == "--part") {
+            // stale replay files of earlier runs would be misleading
+            let dir = verif_root().join("replays").join(id);
+            if let Ok(rd) = std::fs::read_dir(&dir) {
+                for e in rd.flatten() {
+                    let _ = std::fs::remove_file(e.path());
+                }
+            }
+        }
         Run {
             id,
             level,
